@@ -333,6 +333,55 @@ def rule_g8(repo):
                 '%s:%d' % (CONGC, a.lineno))
     return res
 
+def rule_g9(repo):
+    """A union re-points every member of one class (`for c in class_list[X]: rep[c] = Y`) - the members are found through
+    the class list, so the list of the surviving representative Y has to take them over (`class_list[Y] += class_list[X]`)
+    and the list of X goes away.  If the lists that are joined are not the ones of that X and that Y, the members moved now
+    are not in Y's list: the next union that absorbs Y re-points Y's recorded members only, the others keep a dead
+    representative, and equalities that were literally merged are answered False."""
+    res = RuleResult('C17.G9', 'the class list of the surviving representative takes over exactly the members that were re-pointed to it', floor=1)
+    f = repo.func(CONGC, 'CongClosure._propagate')
+    flow = flow_of(f.node)
+
+    def cl_key(e):
+        """e is self.class_list[K] (directly or through a second name for the table): the text of K"""
+        e = flow.inline(e)
+        if isinstance(e, ast.Subscript) and (path_of(flow.inline(e.value)) or '').endswith('class_list'):
+            return src(flow.inline(e.slice), 60)
+        return None
+    loops = []
+    for n in ast.walk(f.node):
+        if isinstance(n, ast.For) and isinstance(n.target, ast.Name) and cl_key(n.iter) is not None:
+            for st in ast.walk(n):
+                if isinstance(st, ast.Assign) and any(isinstance(t, ast.Subscript) and (path_of(flow.inline(t.value)) or '').endswith('.rep') and
+                                                     is_name(t.slice, n.target.id) for t in st.targets):
+                    loops.append((n, cl_key(n.iter), src(flow.inline(st.value), 60)))
+    need(loops, '_propagate: the loop that re-points the members of a class not found')
+    joins = []
+    for n in ast.walk(f.node):
+        if isinstance(n, ast.AugAssign) and isinstance(n.op, ast.Add) and cl_key(n.target) is not None and cl_key(n.value) is not None:
+            joins.append((n, cl_key(n.target), cl_key(n.value)))
+        if isinstance(n, ast.Expr) and isinstance(n.value, ast.Call) and call_attr(n.value) == 'extend' and n.value.args and \
+                cl_key(n.value.func.value) is not None and cl_key(n.value.args[0]) is not None:
+            joins.append((n, cl_key(n.value.func.value), cl_key(n.value.args[0])))
+        if isinstance(n, ast.Assign) and len(n.targets) == 1 and cl_key(n.targets[0]) is not None and isinstance(n.value, ast.BinOp) and \
+                isinstance(n.value.op, ast.Add) and cl_key(n.value.left) is not None and cl_key(n.value.right) is not None:
+            joins.append((n, cl_key(n.targets[0]), cl_key(n.value.right) if cl_key(n.value.left) == cl_key(n.targets[0]) else cl_key(n.value.left)))
+    dels = [cl_key(t) for n in ast.walk(f.node) if isinstance(n, ast.Delete) for t in n.targets if cl_key(t) is not None]
+    for lp, x, y in loops:
+        good = [j for j in joins if j[1] == y and j[2] == x]
+        problems = []
+        if not good:
+            problems.append('the members of class_list[%s] are re-pointed to %s, but the lists that are joined are %s' % (
+                x, y, ', '.join('class_list[%s] += class_list[%s] (line %d)' % (t, s_, j.lineno) for j, t, s_ in joins) or 'none'))
+        if x not in dels:
+            problems.append('class_list[%s] is not removed' % x)
+        res.add('%s :: CongClosure._propagate :: union(%s -> %s) :: class-list-takes-over' % (CONGC, x, y), not problems,
+                'class_list[%s] += class_list[%s]; del class_list[%s]' % (y, x, x) if not problems else
+                '; '.join(problems) + ' -- after merge(x,y), merge(x,z), merge(p,q), merge(x,p) the constant z keeps a representative that no longer exists and '
+                'test(x, z) is False', '%s:%d' % (CONGC, lp.lineno))
+    return res
+
 
 def rules(repo):
-    return [rule_g1(repo), rule_g2(repo), rule_g3(repo), rule_g4(repo), rule_g5(repo), rule_g6(repo), rule_g7(repo), rule_g8(repo)]
+    return [rule_g1(repo), rule_g2(repo), rule_g3(repo), rule_g4(repo), rule_g5(repo), rule_g6(repo), rule_g7(repo), rule_g8(repo), rule_g9(repo)]
